@@ -601,6 +601,11 @@ func runC14(c *core.Ctx) {
 	kind := enumKinds[c.Index%len(enumKinds)]
 	d := IntDom(r.Range(3, 16))
 	n := []int{0, 1, 2, r.Range(3, 10), r.Range(3, 10), r.Range(11, 40)}[r.Intn(6)]
+	if c.Index%61 == 13 {
+		d = IntDom(r.Range(150, 400))
+		n = r.Range(300, 1200) // receivers with hundreds of elements
+		c.Count("obs:big-receivers", 1)
+	}
 	cm := intCmps[r.Intn(len(intCmps))]
 	intMaps := []func(int, int) int{
 		func(i, v int) int { return v },
